@@ -38,10 +38,13 @@ static string fmt(double x) { char b[40]; snprintf(b, sizeof b, "%.7g", x); retu
 // every Parameter gradient.  Reference: central differences of L, the forward pass run through the
 // implementation (float32), L accumulated in double, two step sizes h = 2^-7 and 2h with
 // Richardson extrapolation fd* = (4 fd(h) - fd(2h)) / 3.
-//   error model:  fd* - L' = O(h^4 L^(5)) + noise/h,  noise <= c * 2^-24 * S,  S = sum |y_i w_i|
-//   (every y_i carries a relative float32 rounding error of a few ulp per operation on the path).
-//   d = |fd(h) - fd(2h)| ~ 3 h^2 |L'''|/6 + noise/h measures both terms on the spot.
-//   A coordinate is compared only when (d + 64*2^-24*S/h) <= 2% of max(|g|,|fd*|) (+ small floor);
+//   error model:  fd* - L' = O(h^4 L^(5)) + noise/h,  noise ~ c * 2^-24 * S,  S = sum |y_i w_i| over the
+//   elements of y that CHANGE with the coordinate (the others are bit-identical in both runs and
+//   cancel exactly); every such y_i carries a float32 rounding error of a few ulp per operation.
+//   d = |fd(h) - fd(2h)| ~ h^2 |L(3)|/2 + (two independent noise samples)/h measures both error
+//   terms on the spot; 8*2^-24*S/h is a floor for the noise in case the two samples happen to agree.
+//   stop_gradient is held at its base value in the perturbed runs (its documented meaning).
+//   A coordinate is compared only when (d + 8*2^-24*S/h) <= 2% of max(|g|,|fd*|) (+ small floor);
 //   otherwise it is counted `illcond`.  Accepted iff |g - fd*| <= 1% max(|g|,|fd*|) + 2 (d + noise)
 //   + 0.1% of the largest gradient element of that parameter + 1e-5.
 //   A wrong sign / index / missing term changes g by O(|g|), two orders above this tolerance.
@@ -141,7 +144,7 @@ static void count_ops(const Program &P, Stats &st) { for (auto &I : P.ins) st.hi
 static GenOpts opts_for(const string &mode) {
   GenOpts o;
   if (mode == "grad") { o.max_ops = 12; }
-  else if (mode == "batch") { o.batch_ops = false; o.explicit_batch_reshape = false; o.max_ops = 12; }
+  else if (mode == "batch") { o.batch_ops = false; o.explicit_batch_reshape = false; o.force_batched = true; o.max_ops = 12; }
   else if (mode == "api") { o.randoms = true; o.p_invalid = 0.45; o.max_ops = 12; }
   else if (mode == "backend") { o.p_invalid = 0.12; o.p_movement = 0.15; o.max_ops = 12; }
   return o;
